@@ -233,6 +233,7 @@ public:
     bool operator==(const symbol_t& o) const { return id == o.id; }
     bool operator!=(const symbol_t& o) const { return id != o.id; }
     bool operator<(const symbol_t& o) const { return id < o.id; }
+    frame_t get_frame() const; /* defined by the TU that needs it (the frame the symbol is declared in) */
 };
 
 /* std::set<symbol_t> as a bit mask over symbol ids */
@@ -280,10 +281,21 @@ struct verif_symset
         if (s.id < 0 && has_null) i.pos = -1;
         return i;
     }
+    /* erase(iterator): removes the element, returns the iterator to the next one */
+    verif_symset_it erase(const verif_symset_it& it)
+    {
+        if (it.pos >= 0 && it.pos < VERIF_NSYM) mask &= ~(1u << it.pos); else has_null = false;
+        verif_symset_it r = it;
+        r.mask = mask;
+        ++r;
+        return r;
+    }
     bool empty() const { return mask == 0 && !has_null; }
     size_t size() const { size_t n = has_null ? 1 : 0; for (int i = 0; i < VERIF_NSYM; i++) n += (mask >> i) & 1; return n; }
 };
 
+namespace std_next { }
+inline verif_symset_it verif_next(verif_symset_it it) { ++it; return it; }
 inline verif_symset_it find_first_of(const verif_symset_it& b1, const verif_symset_it& e1, const verif_symset_it& b2, const verif_symset_it& e2)
 {
     verif_symset_it r = e1;
